@@ -338,6 +338,7 @@ def registry_diff(ctx, want_kinds=('quantity', 'unit', 'base')):
             ctx.problems.append(Problem('property-fails', 'run-time registry differs from the declared units: ' + l, line=l, failing_input=True,
                                         cmd=bin_path('reg', False, 'fl'), tag='registry'))
     rust = [l for l in rust if not l.startswith('mismatch ')]
+    lean = [l for l in lean if l.split(' ')[0] in ('quantity', 'unit', 'base')]
     key = lambda l: ' '.join(l.split(' ')[:3])
     rd = {key(l): l for l in rust}
     ld = {key(l): l for l in lean}
@@ -696,6 +697,45 @@ spec('C02', run=run_c02, search=None,
           'with the acceptance relation; 9 mixed-base programs under autoconvert on/off; non-trivial: the two types differ',
      trusted_base=['rustc is the implementation under test; a probe is “rejected” when an error’s primary span lies in its line'],
      assumptions=['f64 storage for all forms except Ord::max (i32)'])
+
+
+# ------------------------------------------------------------------------------------------------
+# C19: the harness-declared system
+
+
+def run_c19(ctx, tier=None, seed=None):
+    if not cargo_build(ctx, 'fl', ['usr']):
+        return
+    dump = lean_dump(ctx)
+    if dump is None:
+        return
+    udump = os.path.join(VERIF, 'build', 'dump_usr.txt')
+    rc, out = sh(['lake', 'build', 'Uom.Gen.Usr', 'Uom.Model.Coef', 'Uom.Model.Num'], cwd=LEAN)
+    rc, out = sh('lake env lean --run DumpUsr.lean > %s' % udump, cwd=LEAN)
+    if rc != 0:
+        ctx.problems.append(Problem('proof-broken', 'DumpUsr.lean failed', out[-1500:]))
+        return
+    # exhaustive diff: what the macros produced vs the table generated from the macro invocations
+    rc, out = sh(bin_path('usr', False, 'fl') + ' reg')
+    rust = out.splitlines()
+    lean = open(udump, encoding='utf-8').read().splitlines()
+    if rust != lean:
+        import difflib
+        d = [l for l in difflib.unified_diff(lean, rust, 'model', 'impl', lineterm='', n=0)][:12]
+        ctx.problems.append(Problem('model-differs', 'registry of the harness-declared system differs from the table generated from its macro invocations',
+                                    detail='\n'.join(d), line=(d[3] if len(d) > 3 else ''), cmd=bin_path('usr', False, 'fl') + ' reg', tag='usr-registry'))
+    ctx.extra['usr_registry_rows'] = len(rust)
+    res = pipe(ctx, 'user-system', '{ cat %s %s; %s all; }' % (dump, udump, bin_path('usr', False, 'fl')), shards=1, tier=tier, seed=seed)
+    absorb(ctx, res, 'user-system')
+
+
+spec('C19', run=run_c19, search=search_with(run_c19, seeds=(7,)),
+     rule='a 4-base system declared in the harness with system!/quantity! (7 quantities, 24 units: fractional 1/3, large 4.8e9, tiny 7.5e-14, two offset units, prefix! coefficients; '
+          'default base units, a non-identity f64 base tuple and an f32 one): construction/read-back/round-trip/rounding of every unit, mixed-base + − * / % < == >=, result types, '
+          'format/Debug/parse; 3 units added to SI length/temperature with unit! (conversion, absence from registry and FromStr); ISQ! aliases over six base-unit tuples × 5 units + Debug labels; '
+          'registry of the user system diffed exhaustively against the table generated from its macro invocations; non-trivial as for the SI drivers',
+     trusted_base=['the harness’s own declarations are parsed by the same translator as src/si'],
+     assumptions=['f32/f64 storage'])
 
 
 def replay(ctx, spec_, path):
